@@ -3,9 +3,9 @@ import dump_ast, suites
 from props.common import TRUSTED_BASE, ASSUMPTIONS as _A
 
 ID = 'C03'
-LEAN_MODULES = ['HidVerif.Props.C03']
+LEAN_MODULES = ['HidVerif.Props.C03', 'HidVerif.Props.C17']
 THEOREMS = ['HidVerif.Props.C03.' + n for n in ('core_never_halts', 'core_overflow_never_halts', 'never_commits_halt_iff', 'terminal_never_halts', 'halt_inversion_sound',
-                                                 'halt_inversion_total', 'goto_reach', 'vm_verdict_sound')] + \
+                                                 'halt_inversion_total', 'goto_reach', 'vm_verdict_sound', 'library_writes_never_halt', 'reach_halts_iff')] + \
            ['HidVerif.PSys.safe_not_halts', 'HidVerif.Sphinx.error_stub_reach', 'HidVerif.Sphinx.tnt_never_halts']
 TRUSTED = TRUSTED_BASE
 ASSUMPTIONS = _A + ['whole-program non-halting is PROVED for the core sub-language (core_never_halts, tied by the core correspondence suite); for the rest of the language it is validated (VM verdict never `halted`, which by vm_verdict_sound would exhibit '
